@@ -65,6 +65,20 @@ Theorem c14_no_lost_wakeup :
 Proof. exact thm_no_lost_wakeup. Qed.
 Print Assumptions c14_no_lost_wakeup.
 
+(* Nobody is dropped or overtaken inside the lists (what makes "quiescent => all granted" a statement about every
+   waiter, and what bounds the wait): one step leaves the sender list and the receiver list alone, or pushes ONE new
+   waiter on the sender list, or hands the lock to the HEAD of the receiver list, or - only when the receiver list is
+   empty and the sender list is not - moves the whole sender list to the receiver list (reversed when FIFO). *)
+Theorem c14_no_bypass :
+  forall f b ws hs tr s, run (init f b ws hs) tr = Some s -> forall e s', step s e = Some s' ->
+  (receiver s' = receiver s /\
+   (waiters (sender s') = waiters (sender s) \/ exists c, waiters (sender s') = c :: waiters (sender s))) \/
+  (exists n, receiver s = n :: receiver s' /\ waiters (sender s') = waiters (sender s)) \/
+  (receiver s = [] /\ waiters (sender s) <> [] /\ waiters (sender s') = [] /\
+   receiver s' = if fifo s then rev (waiters (sender s)) else waiters (sender s)).
+Proof. exact thm_no_bypass. Qed.
+Print Assumptions c14_no_bypass.
+
 (* FIFO = true: the critical sections of coroutines that queued are entered in the order of their pushing CASes
    (arrival); the ones still waiting will be served in that order too (M5). *)
 Theorem c14_fifo :
